@@ -120,7 +120,7 @@ func (fl *c16Flow) predicateKnown(cf *kit.Func) bool {
 // it stands for.  Only the shapes the atoms look at are rebuilt.
 func (fl *c16Flow) rw(e ast.Expr) ast.Expr {
 	st := fl.st
-	if st == nil || st.Cur() == fl.rd.f {
+	if st == nil {
 		return e
 	}
 	info := fl.rd.f.Info()
@@ -138,6 +138,14 @@ func (fl *c16Flow) rw(e ast.Expr) ast.Expr {
 				if el := fl.rangeElem(o); el != nil {
 					return el
 				}
+				// a local defined once as an element: v := b[pos]
+				if c16IsByteVar(o) {
+					if d := ast.Unparen(c16Resolve(st.Cur(), x)); d != ast.Expr(x) {
+						if ix, ok := d.(*ast.IndexExpr); ok {
+							return walk(ix)
+						}
+					}
+				}
 			}
 			return x
 		case *ast.UnaryExpr:
@@ -150,7 +158,15 @@ func (fl *c16Flow) rw(e ast.Expr) ast.Expr {
 			}
 			return x
 		case *ast.IndexExpr:
-			return &ast.IndexExpr{X: walk(x.X), Lbrack: x.Lbrack, Index: walk(x.Index), Rbrack: x.Rbrack}
+			base, idx := walk(x.X), walk(x.Index)
+			// (b[lo:hi])[i] is b[lo+i]
+			if se, ok := ast.Unparen(base).(*ast.SliceExpr); ok && !se.Slice3 {
+				if se.Low != nil {
+					idx = &ast.BinaryExpr{X: &ast.ParenExpr{X: se.Low}, Op: token.ADD, Y: idx}
+				}
+				base = se.X
+			}
+			return &ast.IndexExpr{X: base, Lbrack: x.Lbrack, Index: idx, Rbrack: x.Rbrack}
 		case *ast.CallExpr:
 			if b, ok := kit.Callee(info, x).(*types.Builtin); ok && b.Name() == "len" && len(x.Args) == 1 {
 				arg := walk(x.Args[0])
@@ -206,4 +222,34 @@ func (fl *c16Flow) rangeElem(o types.Object) ast.Expr {
 		return &ast.IndexExpr{X: y, Index: key}
 	}
 	return nil
+}
+
+func c16IsByteVar(o types.Object) bool {
+	v, ok := o.(*types.Var)
+	if !ok || v.IsField() {
+		return false
+	}
+	b, ok := v.Type().Underlying().(*types.Basic)
+	return ok && b.Kind() == types.Uint8
+}
+
+// inPackageCallers names the same-package functions that call the reader.
+func (fl *c16Flow) inPackageCallers() string {
+	f := fl.rd.f
+	out := ""
+	for _, g := range fl.c.P.Funcs(f.PkgRel()) {
+		if g == f || g.Body == nil {
+			continue
+		}
+		for _, call := range g.AllCalls(true) {
+			if g.CalleeFunc(call) == f {
+				if out != "" {
+					out += ", "
+				}
+				out += g.Name
+				break
+			}
+		}
+	}
+	return out
 }
